@@ -89,9 +89,9 @@ func (s *c15Spec) build() *rapid.Generator[any] {
 	case "intrange":
 		return rapid.IntRange(0, s.A).AsAny()
 	case "filter":
-		return s.Sub.build().Filter(func(v any) bool { return len(fmt.Sprint(v))%3 != 0 })
+		return s.Sub.build().Filter(func(v any) bool { return len(plain(v))%3 != 0 })
 	case "map":
-		return rapid.Map(s.Sub.build(), func(v any) any { return fmt.Sprintf("m(%v)", v) })
+		return rapid.Map(s.Sub.build(), func(v any) any { return "m(" + plain(v) + ")" })
 	case "oneof":
 		return rapid.OneOf(rapid.Just(any(s.A)), s.Sub.build())
 	case "deferred":
@@ -102,7 +102,7 @@ func (s *c15Spec) build() *rapid.Generator[any] {
 		a := s.A
 		return rapid.Custom(func(t *rapid.T) any {
 			n := rapid.IntRange(0, a).Draw(t, "n")
-			return fmt.Sprintf("c(%d,%v)", n, sub.Draw(t, "sub"))
+			return fmt.Sprintf("c(%d,%s)", n, plain(sub.Draw(t, "sub")))
 		})
 	case "matching":
 		return rapid.StringMatching(c15Regexps[s.A]).AsAny()
@@ -119,7 +119,7 @@ func (s *c15Spec) build() *rapid.Generator[any] {
 	case "mapofn":
 		return rapid.MapOfN(rapid.IntRange(0, s.A+2), s.Sub.build(), 1, 3).AsAny()
 	case "mapofvalues":
-		return rapid.MapOfValues(s.Sub.build(), func(v any) string { return fmt.Sprint(v) }).AsAny()
+		return rapid.MapOfValues(s.Sub.build(), func(v any) string { return plain(v) }).AsAny()
 	case "distinct":
 		return rapid.SliceOfDistinct(rapid.IntRange(0, s.A), rapid.ID[int]).AsAny()
 	case "perm":
@@ -148,6 +148,10 @@ func (s *c15Spec) build() *rapid.Generator[any] {
 }
 
 var reAddr = regexp.MustCompile(`0xc[0-9a-f]{6,}`)
+
+// plain: text of a value for use INSIDE generator callbacks (filter predicates, map functions, key functions): heap
+// addresses must not influence what a generator does, or the generator would not be a function of its bitstream.
+func plain(v any) string { return reAddr.ReplaceAllString(fmt.Sprint(v), "PTR") }
 
 // show formats a drawn value; heap addresses are not part of the value.
 func show(v any) string { return reAddr.ReplaceAllString(fmt.Sprintf("%#v", v), "PTR") }
